@@ -52,6 +52,31 @@ pub fn flow_recv_response_after_timeout(method: &str) -> Flow<(), RecvResponse> 
     to_recv_response(f).expect("harness: reach RecvResponse")
 }
 
+/// A flow in RecvResponse because the server answered while the request was still awaiting 100-continue: `answer`
+/// (the start of a non-100 response) was seen by try_read_100, the body was never sent.
+pub fn flow_recv_response_after_refusal(method: &str, answer: &[u8]) -> Option<Flow<(), RecvResponse>> {
+    let req = Request::builder().method(Method::from_bytes(method.as_bytes()).unwrap()).uri("http://h.test/p").header("expect", "100-continue").body(()).unwrap();
+    let mut f = Flow::new(req).expect("harness: flow").proceed();
+    let mut buf = vec![0u8; 1 << 12];
+    for _ in 0..400 {
+        if f.can_proceed() {
+            break;
+        }
+        f.write(&mut buf).ok()?;
+    }
+    match f.proceed().ok()?? {
+        SendRequestResult::Await100(mut a) => {
+            guarded(|| a.try_read_100(answer))?.ok()?;
+            match guarded(|| a.proceed())?.ok()? {
+                Await100Result::RecvResponse(f) => Some(f),
+                // (the answer did not decide anything yet: the caller gives up waiting, sends the body and receives)
+                Await100Result::SendBody(f) => finish_body(f),
+            }
+        }
+        _ => None,
+    }
+}
+
 /// Like flow_recv_response, with request-side conditions that already demand closing the connection:
 /// variant 1 = "connection: close" on the request, 2 = an HTTP/1.0 request (GET/HEAD/POST only), 3 = both.
 pub fn flow_recv_response_v(method: &str, variant: usize) -> Flow<(), RecvResponse> {
